@@ -270,25 +270,43 @@ where
             .delivery_tag
             .clone()
             .ok_or(LinkStateError::IllegalState)?;
-        let settled = self
-            .send_transfer_without_modifying_unsettled_map(writer, transfer, payload)
+        // If not set on the first (or only) transfer for a (multi-transfer)
+        // delivery, then the settled flag MUST be interpreted as being false.
+        let settled = transfer.settled.unwrap_or(match self.snd_settle_mode {
+            SenderSettleMode::Settled => true,
+            SenderSettleMode::Unsettled => false,
+            SenderSettleMode::Mixed => false,
+        });
+
+        // The delivery is recorded as unsettled *before* the transfer is handed to the session. The
+        // session task runs concurrently with this one, so the receiver's disposition can be
+        // processed as soon as the transfer is on its way; a disposition that finds no entry is
+        // dropped and the outcome would never be delivered.
+        let mut pending = None;
+        if !settled {
+            let (tx, rx) = oneshot::channel();
+            let unsettled = UnsettledMessage::new(payload_copy, None, message_format, tx);
+            self.unsettled
+                .write()
+                .get_or_insert(OrderedMap::new())
+                .insert(delivery_tag.clone(), unsettled);
+            // Removes the entry again if the transfer is not handed over completely (error or a
+            // dropped future)
+            let guard = RemoveUnsettledOnDrop {
+                unsettled: &self.unsettled,
+                delivery_tag: Some(delivery_tag.clone()),
+            };
+            pending = Some((rx, guard));
+        }
+
+        self.send_transfer_without_modifying_unsettled_map(writer, transfer, payload)
             .await?;
         #[cfg(fe2o3_amqp_verif)]
         crate::verif::sched_point("sender-transfer-handed-over").await;
-        match settled {
-            true => Ok(Settlement::Settled(delivery_tag)),
-            // If not set on the first (or only) transfer for a (multi-transfer)
-            // delivery, then the settled flag MUST be interpreted as being false.
-            false => {
-                let (tx, rx) = oneshot::channel();
-                let unsettled = UnsettledMessage::new(payload_copy, None, message_format, tx);
-                {
-                    let mut guard = self.unsettled.write();
-                    guard
-                        .get_or_insert(OrderedMap::new())
-                        .insert(delivery_tag.clone(), unsettled);
-                }
-
+        match pending {
+            None => Ok(Settlement::Settled(delivery_tag)),
+            Some((rx, mut guard)) => {
+                guard.delivery_tag = None;
                 Ok(Settlement::Unsettled {
                     delivery_tag,
                     outcome: rx,
@@ -907,5 +925,21 @@ where
             Some(reason) => SenderAttachError::SessionStopped(reason.clone()),
             None => SenderAttachError::IllegalState, // defensive: no stop reason recorded; failure is link-local
         },
+    }
+}
+
+/// Takes a delivery out of the unsettled map again unless it is disarmed
+struct RemoveUnsettledOnDrop<'a> {
+    unsettled: &'a ArcSenderUnsettledMap,
+    delivery_tag: Option<DeliveryTag>,
+}
+
+impl Drop for RemoveUnsettledOnDrop<'_> {
+    fn drop(&mut self) {
+        if let Some(delivery_tag) = self.delivery_tag.take() {
+            if let Some(map) = self.unsettled.write().as_mut() {
+                map.swap_remove(&delivery_tag);
+            }
+        }
     }
 }
